@@ -141,6 +141,7 @@ type Server struct {
 	InflightWatch int
 	HoldFirstList chan struct{} // if non-nil the first list waits for this channel (C08)
 	uids          int
+	DeafHanging   int // list calls in flight that ignore their context
 	Unstructured  bool // objects and lists in the dynamic client's representation (*unstructured.Unstructured / UnstructuredList)
 	EmptyListRV   bool // lists carry no resourceVersion of their own
 	Reuse         bool // one live object per key, mutated in place and re-sent by pointer
@@ -278,6 +279,9 @@ func ListErrorOf(kind string) error {
 		return context.Canceled
 	case "error-deadline-bare":
 		return context.DeadlineExceeded
+	case "error-nilcause", "error-nilcause-with-list":
+		// an error type with an OPTIONAL cause (juju-style): Cause() returns nil
+		return causeless{"injected: list failed (an error whose Cause() is nil)"}
 	case "error-notrunning":
 		// the library's own sentinel coming back from the client (a ListClient
 		// layered on another kcache controller that has been closed)
@@ -348,6 +352,15 @@ func (s *Server) List(ctx context.Context, opts metav1.ListOptions) (runtime.Obj
 	if script == "" && s.F.Roll("list-hang") {
 		script = "hang"
 	}
+	if script == "hang-deaf" {
+		// a client that does not honour its context: the call returns only when
+		// the injected partition ends (Faults.Stop), whatever happens to ctx
+		call.Outcome = "hang-deaf"
+		s.DeafHanging++
+		<-s.F.released
+		s.DeafHanging--
+		call.Outcome = "ok"
+	}
 	if script == "hang" {
 		call.Outcome = "hang"
 		select {
@@ -401,7 +414,10 @@ func (s *Server) List(ctx context.Context, opts metav1.ListOptions) (runtime.Obj
 		// a truncated / partially decoded response: content and an error
 		call.Outcome = "error"
 		return BuildList(s.Kind, rv, snap), ErrInjectedList
-	case "error-timeout", "error-canceled", "error-canceled-bare", "error-deadline-bare", "error-notrunning", "error-notrunning-wrapped":
+	case "error-nilcause-with-list":
+		call.Outcome = "error"
+		return BuildTypedList(s.Kind, "", nil), ListErrorOf(script)
+	case "error-timeout", "error-canceled", "error-canceled-bare", "error-deadline-bare", "error-notrunning", "error-notrunning-wrapped", "error-nilcause":
 		// a failed list is fatal whatever the error value looks like - also when
 		// it is, or wraps, a context error that is not the caller's own cancellation
 		call.Outcome = "error"
@@ -434,6 +450,30 @@ func (s *Server) List(ctx context.Context, opts metav1.ListOptions) (runtime.Obj
 	}
 	if s.Typed {
 		return BuildTypedList(s.Kind, rv, snap), nil
+	}
+	if opts.Limit > 0 || opts.Continue != "" {
+		// paging, as the API server does it: at most Limit items and a continue
+		// token; a client that asks for pages has to follow them
+		off := 0
+		if opts.Continue != "" {
+			fmt.Sscanf(opts.Continue, "injected-continue-%d", &off)
+		}
+		if off > len(snap) {
+			off = len(snap)
+		}
+		page := snap[off:]
+		l := &metav1.List{ListMeta: metav1.ListMeta{ResourceVersion: rv}}
+		if opts.Limit > 0 && int64(len(page)) > opts.Limit {
+			page = page[:opts.Limit]
+			l.Continue = fmt.Sprintf("injected-continue-%d", off+int(opts.Limit))
+			rem := int64(len(snap) - off - int(opts.Limit))
+			l.RemainingItemCount = &rem
+		}
+		for _, o := range page {
+			l.Items = append(l.Items, runtime.RawExtension{Object: s.object(o, false)})
+		}
+		detsim.Count("probe:list-paged")
+		return l, nil
 	}
 	if s.Unstructured {
 		// what the dynamic client returns: an UnstructuredList of Unstructured items
@@ -767,3 +807,10 @@ func ToUnstructured(o runtime.Object) *unstructured.Unstructured {
 	}
 	return &unstructured.Unstructured{Object: m}
 }
+
+// causeless is an error with an optional cause that is not set: pkg/errors'
+// Cause() follows Cause() methods until one returns nil - and then returns nil.
+type causeless struct{ msg string }
+
+func (e causeless) Error() string { return e.msg }
+func (e causeless) Cause() error  { return nil }
